@@ -40,4 +40,10 @@ MUTANTS = [
  {"id": "veclit-eq-byte-wrong", "kind": "break", "edits": [{"patch": "/verif/benign/dewey-2/patch.diff"}, (D, "get(index + 1) == Some(&b'=')", "get(index + 1) == Some(&b'-')")], "expect": ["D1-SCAN"]},
  {"id": "veclit-first-bound-to-end", "kind": "break", "edits": [{"patch": "/verif/benign/dewey-2/patch.diff"}, (D, "&pattern[*lo_vstart..*hi_start]", "&pattern[*lo_vstart..]")], "expect": ["D1-SLICES"]},
 
+ # operator records as a named struct (benign/h3-dewey-2) and its one-line breakages
+ {"id": "opspan-struct-benign", "kind": "benign", "edits": [{"patch": "/verif/benign/h3-dewey-2/patch.diff"}]},
+ {"id": "opspan-version-off-by-one", "kind": "break", "edits": [{"patch": "/verif/benign/h3-dewey-2/patch.diff"}, ("src/dewey.rs", "let version = start + if inclusive { 2 } else { 1 };", "let version = start + if inclusive { 1 } else { 1 };")], "expect": ["D1-SCAN"]},
+ {"id": "opspan-fields-swapped-at-push", "kind": "break", "edits": [{"patch": "/verif/benign/h3-dewey-2/patch.diff"}, ("src/dewey.rs", "deweyops.push(OpSpan { start, version, op });", "deweyops.push(OpSpan { start: version, version: start, op });")], "expect": ["D1-"]},
+ {"id": "opspan-upper-bound-from-lower-record", "kind": "break", "edits": [{"patch": "/verif/benign/h3-dewey-2/patch.diff"}, ("src/dewey.rs", "let p = &pattern[upper.version..pattern.len()];", "let p = &pattern[lower.version..pattern.len()];")], "expect": ["D1-SLICES"]},
+
 ]
